@@ -20,12 +20,15 @@ def patch_source(owner, name, old, new, count=1):
         raw, wrap = fn.__func__, staticmethod
     elif isinstance(fn, classmethod):
         raw, wrap = fn.__func__, classmethod
-    if getattr(raw, '_holsim_patched', None) == (old, new):
+    key = (old, new)
+    if key in getattr(raw, '_holsim_patched', ()):
         return
-    try:
-        orig = inspect.getsource(raw)
-    except (OSError, TypeError) as e:
-        raise VariantUnavailable(str(e))
+    orig = getattr(raw, '_holsim_src', None)
+    if orig is None:
+        try:
+            orig = inspect.getsource(raw)
+        except (OSError, TypeError) as e:
+            raise VariantUnavailable(str(e))
     src = textwrap.dedent(orig)
     ind = len(orig) - len(orig.lstrip(' '))
     if ind and old not in src:
@@ -39,7 +42,61 @@ def patch_source(owner, name, old, new, count=1):
     ns = {}
     exec(compile(src, '<variant %s>' % name, 'exec'), glob, ns)
     newfn = ns[raw.__name__]
-    newfn._holsim_patched = (old, new)
+    newfn._holsim_patched = getattr(raw, '_holsim_patched', ()) + (key,)
+    newfn._holsim_src = src
     if wrap:
         newfn = wrap(newfn)
     setattr(owner, name, newfn)
+
+
+class SimAllocator:
+    """Seam S1: replaces the builtin `id` seen by kernel/term.py.
+
+    Hands out simulated addresses.  An address is re-issued only after the object that
+    owned it has been finalised (CPython's contract); whether and which freed address
+    is re-used is decided by the PRNG.  reuse_p == 0 gives monotonic addresses."""
+
+    def __init__(self, rng, reuse_p=0.0, counters=None):
+        import weakref
+        self._weakref = weakref
+        self.rng = rng
+        self.reuse_p = reuse_p
+        self.next = 0x1000
+        self.free = []
+        self.live = {}      # real id -> simulated address (objects asked about more than once)
+        self.issued = 0
+        self.reissued = 0
+        self.released = 0
+        self.counters = counters
+
+    def _release(self, real, addr):
+        self.live.pop(real, None)
+        self.free.append(addr)
+        self.released += 1
+
+    def __call__(self, obj):
+        real = _real_id(obj)
+        a = self.live.get(real)
+        if a is not None:
+            return a
+        if self.free and self.reuse_p > 0 and self.rng.random() < self.reuse_p:
+            # CPython re-uses the most recently freed block of a size class first;
+            # we mostly do the same and sometimes pick an older one
+            if self.rng.random() < 0.7:
+                a = self.free.pop()
+            else:
+                a = self.free.pop(self.rng.randrange(len(self.free)))
+            self.reissued += 1
+        else:
+            a = self.next
+            self.next += 16
+        self.issued += 1
+        self.live[real] = a
+        try:
+            self._weakref.finalize(obj, self._release, real, a)
+        except TypeError:
+            pass
+        return a
+
+
+_real_id = id
